@@ -120,6 +120,9 @@ func VerifH_C17_storage() {
 		}
 	}
 	nparts := verifChoice("nparts", verifParam("MAXPARTS", 2)+1)
+	if mn := verifParam("MINPARTS", 0); nparts < mn {
+		nparts = mn
+	}
 	nops := verifParam("OPS", 3)
 	var model []*vPartModel
 	parts := make([][]Part, len(fs))
